@@ -2,6 +2,7 @@ import XlModel.Lemmas.Save3
 import XlModel.Lemmas.SaveWriters
 import XlModel.Lemmas.SaveCols
 import XlModel.Lemmas.SaveCols3
+import XlModel.Lemmas.SaveColsIdem
 import XlModel.Lemmas.Grid4
 import XlModel.Generated.FactsC01
 /-!
@@ -356,6 +357,33 @@ theorem save_cols_repeatable (n : Nat) (l : List SaveCols.Col) (h : SaveCols.Wf 
   | succ n ih =>
     have h1 := SaveCols.mergeCols_wf (Nat.repeat SaveCols.mergeCols n l) ih.2
     exact ⟨fun c => (h1.1 c).trans (ih.1 c), h1.2⟩
+
+/-- (repeatable, column definitions, as a LIST) for every `<cols>` list the column setters can leave
+(`SaveCols.Wf`, any order): the second save rewrites `<cols>` to exactly the entries the first save left —
+`mergeExpandedCols ∘ mergeExpandedCols = mergeExpandedCols`, not only the same per-column answers
+(`save_cols_repeatable`).  After one save no entry is its predecessor shifted by one column any more
+(`SaveCols.mergeGo_noAdj`), so the loop copies the list (`SaveCols.mergeGo_fixed`). -/
+theorem save_cols_idempotent (l : List SaveCols.Col) (h : SaveCols.Wf l) :
+    SaveCols.mergeCols (SaveCols.mergeCols l) = SaveCols.mergeCols l :=
+  SaveCols.mergeCols_idem l h
+
+/-- (any number of saves) `n + 1` consecutive saves leave the `<cols>` list one save leaves -/
+theorem save_cols_repeatable_list (n : Nat) (l : List SaveCols.Col) (h : SaveCols.Wf l) :
+    Nat.repeat SaveCols.mergeCols (n + 1) l = SaveCols.mergeCols l := by
+  induction n with
+  | zero => rfl
+  | succ n ih =>
+    show SaveCols.mergeCols (Nat.repeat SaveCols.mergeCols (n + 1) l) = _
+    rw [ih, save_cols_idempotent l h]
+
+/-- (non-vacuity: the first save does change the list) two single-column entries with equal attributes,
+stored out of order by the setters, become one range `1..2`; the theorem above says that is where it stops -/
+theorem sample_cols_first_save_changes_list :
+    let a : SaveCols.Attrs := ⟨false, false, true, false, 0, false, 3, some ['9']⟩
+    let l : List SaveCols.Col := [⟨2, 2, a⟩, ⟨1, 1, a⟩]
+    SaveCols.mergeCols l = [⟨1, 2, a⟩] ∧ SaveCols.mergeCols l ≠ l
+      ∧ SaveCols.mergeCols (SaveCols.mergeCols l) = SaveCols.mergeCols l := by
+  decide
 
 /-! ## the other part writers: a writer must not consume what it renders from -/
 
